@@ -530,6 +530,14 @@ def run(ctx):
     imported(ctx, C08.rule_S)
     imported(ctx, C08.rule_F)
     imported(ctx, C14.rule_K1)
+    # the target the weights are computed from is the specified density (C03.T1-T3); particles extend their parent
+    # with the tree editor (TS) on copies that share nothing with it (C06.M4), refreshing what they invalidate (C06.M1/M2)
+    from . import _premises
+
+    _premises.density(ctx)
+    _premises.tree_editor(ctx)
+    _premises.deep_copies(ctx)
+    _premises.refresh(ctx)
 
 
 # Self-test catalogue: one textual edit each, applied to a scratch copy (see selftest.py).
